@@ -14,6 +14,31 @@ type RenameObject struct {
 }
 
 func (pass *RenameObject) Process(schemas []*ast.Schema) ([]*ast.Schema, error) {
+	// the new name takes the place of no other object: objects are kept under their name
+	for _, schema := range schemas {
+		if schema.Package != pass.From.Package {
+			continue
+		}
+
+		var renamed []string
+		taken := false
+		schema.Objects.Iterate(func(_ string, object ast.Object) {
+			switch {
+			case pass.From.Matches(object):
+				renamed = append(renamed, object.Name)
+			case object.Name == pass.To:
+				taken = true
+			}
+		})
+
+		if len(renamed) > 1 {
+			return nil, fmt.Errorf("rename_object: %s designates several objects (%v): they can not all be called '%s'", pass.From, renamed, pass.To)
+		}
+		if len(renamed) == 1 && taken {
+			return nil, fmt.Errorf("rename_object: %s can not be renamed to '%s': an object of that name exists", pass.From, pass.To)
+		}
+	}
+
 	visitor := &Visitor{
 		OnObject:      pass.processObject,
 		OnRef:         pass.processRef,
